@@ -104,12 +104,27 @@ def apply_op(mab, op):
             c = op.get("c")
             if c is not None and not op.get("ctypeok", True):
                 c = tuple(tuple(x) for x in c)
+            if getattr(mab, "_verif_as_pandas", False) and op.get("typeok", True) and op.get("ctypeok", True) \
+                    and len(d) > 0 and len(d) == len(r) and all(x is not None for x in r):
+                import pandas as pd
+                d, r = pd.Series(d), pd.Series(r)
+                if c is not None and len(c) == len(d) and len({len(row) for row in c}) == 1:
+                    c = pd.DataFrame(c)
             (mab.fit if kind == "fit" else mab.partial_fit)(d, r, c)
+            if c is not None and len(c) > 0:
+                mab._verif_width = len(c[0])        # width of the last *accepted* training call
             return ("ok",)
         if kind in ("pexp", "pred"):
             c = op.get("c")
             if c is not None and not op.get("ctypeok", True):
                 c = tuple(tuple(x) for x in c)
+            w = getattr(mab, "_verif_width", None)
+            if getattr(mab, "_verif_as_pandas", False) and isinstance(c, list) and c and w is not None \
+                    and all(isinstance(row, list) and len(row) == w for row in c) and (len(c) == 1 or w == 1):
+                # a pandas Series query: one row of w features, or several rows of one feature; the facade tells the two
+                # apart by the width the bandit was trained with
+                import pandas as pd
+                c = pd.Series(c[0] if w > 1 or len(c) == 1 else [row[0] for row in c])
             res = (mab.predict_expectations if kind == "pexp" else mab.predict)(c)
             return ("ok", canon(copy.deepcopy(res)))
         if kind == "add":
